@@ -31,7 +31,9 @@ MANIFEST = {
             "AddVarStr (and AddStr when the maximum fits) never fault, keep DataLen <= 223 and append a payload-independent, "
             "well-formed field (length byte = 2 + body, type 0/1 as N2kRequireUnicode and the policy require); for EVERY "
             "payload, index, length/type byte and destination size (0 included) GetStr/GetVarStr never fault and "
-            "NUL-terminate; round trips for fixed, AIS (upper-cased / replaced), ASCII and UCS-2 variable fields. The "
+            "NUL-terminate; round trips proved for fixed fields, AIS fields (upper-cased / replaced), and variable fields "
+            "at every fill level: ASCII verbatim, well-formed UTF-8 through UCS-2 (2-/3-byte sequences preserved, 4-byte "
+            "sequences -> '?', cut at whole characters) and through the ASCII-only policy (multi-byte -> '?'). The "
             "model is tied to N2kMsg.cpp by a correspondence run on exact-size heap buffers and a guard page, with an "
             "independent oracle (sanitizer, guard page, object snapshot, stale-byte independence, reference UTF-8 decoder).",
     'design_ref': 'DESIGN.md section 4, C16',
